@@ -46,8 +46,8 @@ CHECKS = {
         text="Theorems c05_local/genes/files/reject; c18_code_validate_split(_iff): PreProcessor._validate_split as translated from the current sources accepts two sorted key lists iff they are equal; c05_code_overlap_files / c05_code_density_reads_own_files: the gene cache, TE cache and overlap file of a chromosome, followed through _OverlapJob, OverlapResult and MergeJob as translated from the current sources, are the files the density stage of that chromosome opens; c05_code_local: the cells the translated code yields for a chromosome depend only on that chromosome's genes and TEs; variants differing only on other chromosomes and chromosome-set mismatches (equal and unequal cardinality, interleaving name orders) through the real stages and the CLI.",
         design="DESIGN.md 6 C05"),
     "C06": dict(
-        technique="Coq proof (count invariant under shift and reflection, monotone in the range; transported through the C01 refinement; monotonicity also for the cells of the translated code) + differential execution on triples",
-        text="Theorems c06_shift/mirror/monotone for all shifts, reflection points and windows (untruncated left windows); c06_code_monotone: the covered count the translated code yields for a gene, group and side never decreases from a window of the file to a larger one; triples input/shifted (to 2^31-1)/mirrored through the real stages compared with each other.",
+        technique="Coq proof (count invariant under shift and reflection, monotone in the range; transported through the C01 refinement; all three also for the cells the translated overlap loop and summation compute and the translated lookup finds) + differential execution on triples",
+        text="Theorems c06_shift/mirror/monotone for all shifts, reflection points and windows (untruncated left windows); c06_code_monotone: the covered count the translated code yields for a gene, group and side never decreases from a window of the file to a larger one; c06_code_shift / c06_code_mirror: for the runs on a pair and on the pair shifted by k / reflected about M (both well formed), the cell of the translated code for the shifted pair - for the reflected pair on the other side - under the same labels is the cell of the original, left windows untruncated; triples input/shifted (to 2^31-1)/mirrored through the real stages compared with each other.",
         design="DESIGN.md 6 C06"),
     "C07": dict(
         technique="Coq proof (monotonicity and sub-additivity of the covered count; transported through the C01 refinement) + oracle-free consistency pass",
